@@ -348,6 +348,11 @@ func (e *Enc) frameObligations(c *Contract, env *CEnv, rets []*Exit) {
 		if strings.HasPrefix(k, "RS:") {
 			continue // iteration ghosts are local to the activation
 		}
+		if strings.HasPrefix(k, "ghost:") {
+			if g := e.w.CS.Ghosts[strings.TrimPrefix(k, "ghost:")]; g != nil && g.Local {
+				continue // activation-local ghosts are not part of any frame
+			}
+		}
 		if k == "$alloc" {
 			if c.Pure {
 				var goals []Term
